@@ -16,12 +16,13 @@ BOUNDS = {
              "position (symbolic translations) and scales 1e-6..1e3 (enumerated decades), general position with 2% "
              "margins at segment ends; design conditions: pentagon of fixed abscissa pattern, symbolic position and "
              "symbolic ordinate of every vertex (+-0.05), scales 1 and 1e-4, steps as explicit list (inside and "
-             "outside the range), int and None, both swap_axis values. All terms are linear: every query is decided.",
+             "outside the range), int and None, both swap_axis values; the same for a flat-topped quadrilateral and a "
+             "non-convex notched hexagon that probe lines cross four times. All terms are linear: every query is decided.",
     "thorough": "10 shape pairs with up to 3 segments, 9 scale decades, second polygon",
 }
 OUTSIDE = [
     "degenerate configurations (probe line through a vertex, parallel or touching segments)",
-    "polygons with more than two crossings per abscissa (the code asserts and raises)",
+    "polygons with more than four crossings per abscissa (a notched hexagon with four crossings is in the bound)",
     "floating-point cancellation in the 4x4 solve (Real mode)",
     "polylines/polygons whose segment DIRECTIONS are symbolic: a fully symbolic formulation leads to nonlinear "
     "queries that neither z3 4.8/5.1 nor cvc5 decided within minutes (probed); directions are enumerated instead",
@@ -144,6 +145,10 @@ POLYGONS = {
     # the closing edge (last vertex -> first vertex) is the TOP of the polygon and (before the symbolic perturbation)
     # horizontal: first and last vertex may share a coordinate exactly, as on rectangles and clipped contours
     "flat_top": [[1.0, 4.0], [1.5, 1.0], [4.0, 0.5], [4.5, 4.0]],
+    # non-convex (star-shaped about (2.5, 2.5)): a probe line in the notch crosses the polygon FOUR times, as on
+    # banana-shaped Hs-Tz contours and on unions of density regions; notch_y is the same shape for swap_axis=True
+    "notch_x": [[1.0, 2.5], [2.0, 0.5], [5.0, 1.5], [3.0, 2.5], [5.0, 3.5], [2.0, 4.5]],
+    "notch_y": [[2.5, 1.0], [0.5, 2.0], [1.5, 5.0], [2.5, 3.0], [3.5, 5.0], [4.5, 2.0]],
 }
 
 
@@ -294,9 +299,11 @@ def obligations(tier):
                 continue
             yield ("intersection", h_intersection, {"a": a, "b": b, "scale": sc}, {"max_paths": 20000})
     yield ("intersection", h_intersection, {"a": "vee", "b": "seg_anti", "scale": 1.0, "lists": True}, {})
-    for poly in (("pentagon", "flat_top") if tier == "quick" else ("pentagon", "quad", "flat_top")):
+    for poly0 in (("pentagon", "flat_top", "notch") if tier == "quick" else ("pentagon", "quad", "flat_top", "notch")):
         for swap in (False, True):
-            pr = {"pentagon": {False: [2.6, 3.5, 0.5, 4.25], True: [2.0, 3.5, 6.0]},
+            poly = poly0 if poly0 != "notch" else ("notch_y" if swap else "notch_x")
+            pr = {"notch_x": {False: [4.0, 1.5, 6.0, 2.5]}, "notch_y": {True: [4.0, 1.5, 6.0, 2.5]},
+                  "pentagon": {False: [2.6, 3.5, 0.5, 4.25], True: [2.0, 3.5, 6.0]},
                   "quad": {False: [2.0, 4.0, 6.0], True: [1.2, 3.2]},
                   "flat_top": {False: [2.5, 3.0, 0.5, 4.25], True: [2.0, 3.0, 6.0]}}[poly][swap]
             for sc in (((1.0, 1e-4) if poly == "pentagon" else (1.0,)) if tier == "quick" else scales):
